@@ -84,6 +84,10 @@ func (r *runner) metric(ns, name int) (uint32, bool) {
 		r.o.observe(nameKey{"metric", strconv.Itoa(ns), strconv.Itoa(name)}, id, op)
 		r.metricIDs = addUnique(r.metricIDs, int(id))
 		r.c.Branch("gen-metric")
+		// "looking up or creating … returns one and the same id": the lookup-only API must agree
+		if id2, ok2 := r.getMetric(ns, name); !ok2 || id2 != id {
+			r.c.Fail(r.o.tag+"lookup-after-create-metric", fmt.Sprintf("%s returned id %d, GetMetricID afterwards: found=%v id=%d", op, id, ok2, id2))
+		}
 	}
 	return id, ok
 }
@@ -126,6 +130,9 @@ func (r *runner) tagValue(tagKeyID, v int) (uint32, bool) {
 	if ok {
 		r.o.observe(nameKey{"tagvalue", strconv.Itoa(tagKeyID), strconv.Itoa(v)}, id, op)
 		r.c.Branch("gen-tagvalue")
+		if id2, ok2 := parseID(r.findTV(tagKeyID, v)); !ok2 || id2 != id {
+			r.c.Fail(r.o.tag+"lookup-after-create-tagvalue", fmt.Sprintf("%s returned id %d, lookup afterwards: found=%v id=%d", op, id, ok2, id2))
+		}
 	}
 	return id, ok
 }
@@ -388,6 +395,8 @@ func (area) Run(c *core.Ctx) error {
 			err = witnessSeriesLimit(c, db)
 		case 5:
 			err = witnessSchemaFlushWindow(c, db)
+		case 6:
+			err = witnessLookupVsFlush(c, db)
 		default:
 			err = randomCase(c, rng, db)
 		}
